@@ -7,7 +7,7 @@
 (* Valid(m) is the conjunction of the five validation clauses.  TLC takes  *)
 (* every valid instance of the file and injects every single defect        *)
 (* (missing CPD, graph/CPD parent mismatch in both directions, cardinality *)
-(* mismatch, state-name mismatch, a column sum off by 0.005, 0.02 or    *)
+(* mismatch, state-name / state-order mismatch, a column sum off by 0.005, 0.02 or    *)
 (* 0.05; den = 200), evaluates Valid on the result and prints the case.              *)
 (* Lemma checked on every model: Valid => the joint sums to 1 within the   *)
 (* accumulated tolerance.                                                  *)
@@ -47,6 +47,8 @@ Defects(m) ==
     \cup {[kind |-> "edge_added", v |-> q[2], p |-> q[1], k |-> 0] :
               q \in {r \in m.nodes \X m.nodes : r[1] # r[2] /\ r \notin m.edges /\ ~HasPath(m.edges, r[2], r[1])}}
     \cup {[kind |-> "state_names", v |-> e[2], p |-> e[1], k |-> 0] : e \in m.edges}
+    \* the child's view lists the SAME state names of the parent in another order (a rotation)
+    \cup {[kind |-> "state_order", v |-> e[2], p |-> e[1], k |-> 0] : e \in {f \in m.edges : Len(m.cpd[f[2]].states[f[1]]) >= 2}}
     \cup {[kind |-> "cardinality", v |-> e[2], p |-> e[1], k |-> 0] : e \in m.edges}
     \cup {[kind |-> "colsum", v |-> v, p |-> "", k |-> k] : v \in m.nodes, k \in {1, 4, 10}}
     \* two columns wrong with compensating errors (the table total is unchanged)
@@ -60,6 +62,9 @@ Inject(m, d) ==
       [] d.kind = "edge_added" -> [m EXCEPT !.edges = m.edges \cup {<<d.p, d.v>>}]
       [] d.kind = "state_names" ->   \* the child's view of the parent's states renamed (same cardinality)
             [m EXCEPT !.cpd[d.v].states[d.p] = [i \in 1..Len(m.cpd[d.v].states[d.p]) |-> IF i = 1 THEN "other" ELSE m.cpd[d.v].states[d.p][i]]]
+      [] d.kind = "state_order" ->
+            LET ss == m.cpd[d.v].states[d.p] IN
+            [m EXCEPT !.cpd[d.v].states[d.p] = [i \in 1..Len(ss) |-> ss[(i % Len(ss)) + 1]]]
       [] d.kind = "cardinality" ->   \* the parent gains a probability-zero state that its child does not know
             [m EXCEPT !.cpd[d.p].states[d.p] = Append(m.cpd[d.p].states[d.p], "extra"),
                       !.cpd[d.p].tab = Append(m.cpd[d.p].tab, [j \in 1..NColsM(m.cpd[d.p]) |-> 0])]
